@@ -235,6 +235,7 @@ class Workspace(AbstractContextManager):
     @contributors.setter
     def contributors(self, value: list[str]):
         self._contributors = np.asarray(value, dtype=h5py.special_dtype(vlen=str))
+        self._save_project_attributes()
 
     def copy_to_parent(
         self,
@@ -699,6 +700,7 @@ class Workspace(AbstractContextManager):
     @distance_unit.setter
     def distance_unit(self, value: str):
         self._distance_unit = value
+        self._save_project_attributes()
 
     def fetch_array_attribute(self, entity: Entity, key: str = "cells") -> np.ndarray:
         """
@@ -999,6 +1001,7 @@ class Workspace(AbstractContextManager):
     @ga_version.setter
     def ga_version(self, value: str):
         self._ga_version = value
+        self._save_project_attributes()
 
     def get_entity(self, name: str | uuid.UUID) -> list[Entity | PropertyGroup | None]:
         """
@@ -1244,7 +1247,7 @@ class Workspace(AbstractContextManager):
         proj_attributes = self._io_call(H5Reader.fetch_project_attributes, mode="r")
 
         for key, attr in proj_attributes.items():
-            setattr(self, self._attribute_map[key], attr)
+            setattr(self, f"_{self._attribute_map[key]}", attr)
 
         self.fetch_or_create_root()
 
@@ -1434,6 +1437,7 @@ class Workspace(AbstractContextManager):
     @version.setter
     def version(self, value: float):
         self._version = value
+        self._save_project_attributes()
 
     @property
     def workspace(self) -> Workspace:
@@ -1441,6 +1445,13 @@ class Workspace(AbstractContextManager):
         This workspace instance itself.
         """
         return self
+
+    def _save_project_attributes(self):
+        """
+        Write the project attributes to the geoh5, when opened in a writable mode.
+        """
+        if self._geoh5 and self.geoh5.mode in ["r+", "a"]:
+            self._io_call(H5Writer.write_attributes, self, mode="r+")
 
     def _io_call(self, fun, *args, mode="r", **kwargs):
         """
